@@ -247,6 +247,9 @@ class RaggedArray:
             None
 
         """
+        if self._accessmode != 'r+':
+            raise OSError(f"Accesmode should be 'r+' "
+                          f"(now is '{self._accessmode}')")
         with self.open_arrays() as ((iv, vv), (fdv, fdi)):
             vlen = self._values.shape[0]
             vlenincr, ilenincr = self._append(array, fdv, fdi, vlen)
@@ -345,6 +348,9 @@ class RaggedArray:
 
         """
 
+        if self._accessmode != 'r+':
+            raise OSError(f"Accesmode should be 'r+' "
+                          f"(now is '{self._accessmode}')")
         with self.open_arrays() as ((iv, vv), (fdv, fdi)):
             vlenincr = 0
             ilenincr = 0
